@@ -251,7 +251,7 @@ class Exec:
 
     def _valset(self, st, vals):
         arr = K(Val, BoolVal(False))
-        for v in vals: arr = Store(arr, to_val(v, st), BoolVal(True))
+        for v in vals: arr = Store(arr, norm_key(to_val(v, st)), BoolVal(True))
         return (st, PSet(arr, 'val'))
 
     def ev_Await(self, e, st):
@@ -522,7 +522,7 @@ class Exec:
             if c.ekind == 'str': return [(st, c.arr[self.as_str(st, item)])]
             iv = to_val(item, st); outs = []
             for s1, h in self.fork(st, hashable(iv), f'L{ln}.hashable'):
-                outs.append((s1, c.arr[iv] if h else self.raise_(s1, 'TypeError', where='operator')))
+                outs.append((s1, c.arr[norm_key(iv)] if h else self.raise_(s1, 'TypeError', where='operator')))
             return outs
         if isinstance(c, PConst) and isinstance(c.obj, (tuple, frozenset, set, list, dict, str)):
             if isinstance(item, PConst): return [(st, BoolVal(item.obj in c.obj))]
@@ -532,7 +532,13 @@ class Exec:
         if isinstance(c, PTuple):
             iv = to_val(item, st)
             return [(st, Or(*[py_eq(iv, to_val(x, st)) for x in c.items]) if c.items else BoolVal(False))]
-        if isinstance(c, PSeq) or (isinstance(c, ZV) and c.kind == 'val'):
+        if isinstance(c, ZV) and c.kind == 'val':
+            outs = []
+            for s1, isfs in self.fork(st, Val.is_FS(c.z), f'L{ln}.in_set'):
+                if isfs: outs.extend(self.contains(s1, PSet(fs_c(Val.fk(c.z)), 'val'), item, ln))
+                else: outs.extend(self.contains(s1, PSeq(*seq_of(c, s1)), item, ln))
+            return outs
+        if isinstance(c, PSeq):
             arr, n = seq_of(c, st); iv = to_val(item, st); j = fresh('j', IntSort())
             return [(st, Exists([j], And(0 <= j, j < n, py_eq(iv, arr[j]))))]
         if isinstance(c, ZV) and c.kind == 'str' and isinstance(item, PConst) and isinstance(item.obj, str):
